@@ -73,6 +73,23 @@ Qed.
 Definition is_named_kind (k : kind) : bool :=
   match k with KInterface | KMetatype => true | _ => false end.
 
+(* the counters after a successful registration of kind k *)
+Definition cnt_after (s s' : sreg) (k : kind) : Prop :=
+  s_nbasic s' = s_nbasic s + (if kind_eqb k KBasic then 1 else 0) /\
+  s_ngeneric s' = s_ngeneric s + (if kind_eqb k KGeneric then 1 else 0) /\
+  s_niface s' = s_niface s + (if kind_eqb k KInterface then 1 else 0) /\
+  s_nmeta s' = s_nmeta s + (if kind_eqb k KMetatype then 1 else 0).
+
+Lemma kind_eqb_refl k : kind_eqb k k = true.
+Proof. destruct k; reflexivity. Qed.
+
+Lemma cnt_after_next s s' k k' : k <> KBuiltin -> cnt_after s s' k ->
+  s_next s' k' = s_next s k' + (if kind_eqb k' k then 1 else 0).
+Proof.
+  intros Hk (A & B & C & D).
+  destruct k; try congruence; destruct k'; cbn [s_next kind_eqb] in *; lia.
+Qed.
+
 Lemma s_register_cases s k t n : k <> KBuiltin ->
   (kind_last k < s_next s k /\ s_register s k t n = (s, SRefused)) \/
   (s_next s k <= kind_last k /\
@@ -80,14 +97,14 @@ Lemma s_register_cases s k t n : k <> KBuiltin ->
               (s', if is_named_kind k then SEntry (s_next s k) n t else SId (s_next s k)) /\
      s_types s' = fput N.compare (s_next s k) (mkdesc k t n) (s_types s) /\
      s_names s' = match n with Some m => fput name_cmp m (s_next s k) (s_names s) | None => s_names s end /\
-     s_next s' k = s_next s k + 1 /\
-     forall k', k' <> k -> s_next s' k' = s_next s k').
+     cnt_after s s' k).
 Proof.
   intros Hk. unfold s_register. cbv zeta.
   destruct (N.ltb_spec (kind_last k) (s_next s k)) as [H|H]; [left; auto|right].
   split; [exact H|]. eexists. split; [destruct k; try congruence; reflexivity|].
-  destruct k; try congruence; cbn [s_bump s_types s_names s_next]; repeat split; try reflexivity;
-    intros k' Hk'; destruct k'; try congruence; reflexivity.
+  unfold cnt_after.
+  destruct k; try congruence; cbn [s_bump s_types s_names s_nbasic s_ngeneric s_niface s_nmeta kind_eqb];
+    repeat split; try reflexivity; lia.
 Qed.
 
 (* the registration a step performs, if any *)
@@ -128,28 +145,20 @@ Qed.
 Lemma sstep_inv s o : sinv s -> sinv (fst (sstep s o)).
 Proof.
   intros I. destruct (sstep_cases s o) as [E|(k & t & n & Hk & E & Hn & _)]; [rewrite E; exact I|].
-  rewrite E. destruct (s_register_cases s k t n Hk) as [[_ R]|(Hroom & s' & R & Ty & Nm & Nx & Ot)];
+  rewrite E. destruct (s_register_cases s k t n Hk) as [[_ R]|(Hroom & s' & R & Ty & Nm & Cn)];
     rewrite R; cbn [fst]; [exact I|].
-  pose proof (si_cnt s I) as C. ranges. constructor.
+  pose proof (si_cnt s I) as C. destruct Cn as (C1 & C2 & C3 & C4). ranges. constructor.
   - intros id d Hg. unfold s_get in Hg. rewrite Ty, id_get_put in Hg.
     destruct (N.compare_spec id (s_next s k)) as [->|Hlt|Hgt].
     + inversion Hg; subst d. cbn [d_kind].
-      destruct k; try congruence; cbn [id_ok s_next kind_last] in *;
-        try rewrite Nx; lia.
+      destruct k; try congruence; cbn [id_ok s_next kind_last kind_eqb] in *; lia.
     + pose proof (si_ids s I id d Hg) as Hok.
       destruct (d_kind d); cbn [id_ok] in *; try assumption;
-        destruct k; try congruence; cbn [s_next] in *;
-        first [rewrite Nx | rewrite (Ot KBasic) by congruence | rewrite (Ot KGeneric) by congruence
-              | rewrite (Ot KInterface) by congruence | rewrite (Ot KMetatype) by congruence]; cbn [s_next]; lia.
+        destruct k; try congruence; cbn [kind_eqb] in *; lia.
     + pose proof (si_ids s I id d Hg) as Hok.
       destruct (d_kind d); cbn [id_ok] in *; try assumption;
-        destruct k; try congruence; cbn [s_next] in *;
-        first [rewrite Nx | rewrite (Ot KBasic) by congruence | rewrite (Ot KGeneric) by congruence
-              | rewrite (Ot KInterface) by congruence | rewrite (Ot KMetatype) by congruence]; cbn [s_next]; lia.
-  - destruct k; try congruence; cbn [s_next kind_last] in *;
-      pose proof (Ot KBasic) as O1; pose proof (Ot KGeneric) as O2;
-      pose proof (Ot KInterface) as O3; pose proof (Ot KMetatype) as O4; cbn [s_next] in *;
-      rewrite ?Nx, ?O1, ?O2, ?O3, ?O4 by congruence; lia.
+        destruct k; try congruence; cbn [kind_eqb] in *; lia.
+  - destruct k; try congruence; cbn [s_next kind_last kind_eqb] in *; lia.
   - intros a Ha. unfold s_find. rewrite Nm. destruct n as [m|]; [|exact (si_targets s I a Ha)].
     rewrite nm_get_put. destruct (name_cmp (snd a) m); [discriminate| |]; exact (si_targets s I a Ha).
 Qed.
@@ -166,7 +175,7 @@ Lemma sstep_stable s o : sinv s ->
   (forall n id, s_find s n = Some id -> s_find (fst (sstep s o)) n = Some id).
 Proof.
   intros I. destruct (sstep_cases s o) as [E|(k & t & n & Hk & E & Hn & _)]; [rewrite E; auto|].
-  rewrite E. destruct (s_register_cases s k t n Hk) as [[_ R]|(Hroom & s' & R & Ty & Nm & Nx & Ot)];
+  rewrite E. destruct (s_register_cases s k t n Hk) as [[_ R]|(Hroom & s' & R & Ty & Nm & Cn)];
     rewrite R; cbn [fst]; [auto|].
   pose proof (s_fresh s k I Hk Hroom) as F. split.
   - intros id d H. unfold s_get. rewrite Ty, id_get_put.
@@ -215,13 +224,18 @@ Proof.
             s_next (fst (s_register s k t n)) k = id + 1 /\
             forall k', k' <> k -> s_next (fst (s_register s k t n)) k' = s_next s k').
   { intros k t n Hk _ H.
-    destruct (s_register_cases s k t n Hk) as [[_ R]|(Hroom & s' & R & Ty & Nm & Nx & Ot)];
+    destruct (s_register_cases s k t n Hk) as [[_ R]|(Hroom & s' & R & Ty & Nm & Cn)];
       rewrite R in *; cbn [fst snd] in *; [discriminate|].
     assert (id = s_next s k) by (destruct (is_named_kind k); congruence). subst id.
     split; [exact Hk|]. split; [reflexivity|]. split.
     { destruct k; try congruence; cbn [kind_first kind_last s_next] in *; lia. }
-    split; [exact (s_fresh s k I Hk Hroom)|]. split; [|split; assumption].
-    unfold s_get. rewrite Ty, id_get_put, N.compare_refl. discriminate. }
+    split; [exact (s_fresh s k I Hk Hroom)|]. split.
+    { unfold s_get. rewrite Ty, id_get_put, N.compare_refl. discriminate. }
+    split.
+    - rewrite (cnt_after_next s s' k k Hk Cn), kind_eqb_refl. reflexivity.
+    - intros k' Hk'. rewrite (cnt_after_next s s' k k' Hk Cn).
+      destruct (kind_eqb k' k) eqn:K; [|lia].
+      exfalso. apply Hk'. destruct k', k; try discriminate; reflexivity. }
   destruct o; cbn [is_registration sstep reg_kind]; try discriminate.
   - apply G; [discriminate|reflexivity].
   - destruct t as [t|]; [|discriminate]. destruct (ti_size t =? 0); [discriminate|].
@@ -246,11 +260,9 @@ Fixpoint s_issued_run (s : sreg) (ops : list op) : list N :=
 Lemma sstep_next_mono s o k : sinv s -> s_next s k <= s_next (fst (sstep s o)) k.
 Proof.
   intros I. destruct (sstep_cases s o) as [E|(k0 & t & n & Hk & E & _ & _)]; [rewrite E; lia|].
-  rewrite E. destruct (s_register_cases s k0 t n Hk) as [[_ R]|(_ & s' & R & _ & _ & Nx & Ot)];
+  rewrite E. destruct (s_register_cases s k0 t n Hk) as [[_ R]|(_ & s' & R & _ & _ & Cn)];
     rewrite R; cbn [fst]; [lia|].
-  destruct (kind_eqb k k0) eqn:K.
-  - assert (k = k0) by (destruct k, k0; try discriminate; reflexivity). subst. lia.
-  - rewrite Ot; [lia|]. intros ->. rewrite kind_eqb_refl in K. discriminate.
+  rewrite (cnt_after_next s s' k0 k Hk Cn). lia.
 Qed.
 
 (* every id issued later is at or above the counter of its kind now *)
@@ -284,7 +296,7 @@ Proof.
   - pose proof (sstep_inv s o I) as I'. destruct (IH _ I') as [ND U].
     assert (U' : forall id, In id (s_issued_run (fst (sstep s o)) ops) -> s_get s id = None).
     { intros id Hin. destruct (s_get s id) as [d|] eqn:G; [|reflexivity].
-      rewrite (proj1 (sstep_stable s o I) id d G) in U. specialize (U id Hin). discriminate. }
+      pose proof (U id Hin) as X. rewrite (proj1 (sstep_stable s o I) id d G) in X. discriminate. }
     destruct (s_issued o (snd (sstep s o))) as [id|] eqn:E; [|split; assumption].
     destruct (sstep_issued s o id I E) as (Hk & Hid & Hr & Hnone & Hnew & Hnx & _). split.
     + constructor; [|assumption]. intros Hin. apply Hnew. apply U. exact Hin.
